@@ -12,6 +12,8 @@ import Sigverif.Model.Eq
 import Sigverif.Model.Cleanup
 import Sigverif.Model.Cache
 import Sigverif.Model.Visitor
+import Sigverif.Model.Grammar
+import Sigverif.Model.Discovery
 namespace SV.Proto
 
 def splitNE (s : String) (sep : String) : List String :=
@@ -285,6 +287,146 @@ def showCallRec (c : CallRec) : String :=
   let kws := showList (c.kwargs.map (fun e => s!"{e.1}={showRM e.2}")) ","
   s!"{showRM c.wrapped}|{args}|{kws}|{showOptRM c.varargs}|{showOptRM c.varkwargs}|{b01 c.useVa}{b01 c.useVk}{b01 c.hideA}{b01 c.hideK}"
 
+/-! ### programs of the forwarding grammar -/
+
+def showCtx : Ctx → String | .load => "l" | .store => "s" | .del => "d"
+
+def tlLen : TreeList → Nat
+  | .nil => 0
+  | .cons _ ts => tlLen ts + 1
+def alLen : ArgList → Nat
+  | .nil => 0
+  | .plain _ r => alLen r + 1
+  | .starred _ r => alLen r + 1
+def klLen : KwList → Nat
+  | .nil => 0
+  | .kw _ _ r => klLen r + 1
+  | .dstar _ r => klLen r + 1
+
+mutual
+  def showTree : Tree → List String
+    | .name id ctx => ["N", toString id, showCtx ctx]
+    | .attr v a => "A" :: showTree v ++ [toString a]
+    | .call f as ks => "C" :: showTree f ++ [toString (alLen as)] ++ showArgs as ++ [toString (klLen ks)] ++ showKws ks
+    | .fdef po args kwo va vk body =>
+      ["F", toString po.length] ++ po.map toString ++ [toString args.length] ++ args.map toString
+        ++ [toString kwo.length] ++ kwo.map toString ++ [showOpt va, showOpt vk, toString (tlLen body)] ++ showTrees body
+    | .nonloc ns => ["G", toString ns.length] ++ ns.map toString
+    | .other ch => ["O", toString (tlLen ch)] ++ showTrees ch
+  def showTrees : TreeList → List String
+    | .nil => []
+    | .cons t ts => showTree t ++ showTrees ts
+  def showArgs : ArgList → List String
+    | .nil => []
+    | .plain t r => "P" :: showTree t ++ showArgs r
+    | .starred t r => "S" :: showTree t ++ showArgs r
+  def showKws : KwList → List String
+    | .nil => []
+    | .kw n v r => ["K", toString n] ++ showTree v ++ showKws r
+    | .dstar v r => "D" :: showTree v ++ showKws r
+end
+
+def parseStar : String → Option Star | "A" => some .A | "K" => some .K | _ => none
+def parseB : String → Option Bool | "1" => some true | "0" => some false | _ => none
+
+mutual
+  def parseNStmt : Nat → List String → Option (NStmt × List String)
+    | 0, _ => none
+    | fuel + 1, toks =>
+      match toks with
+      | "fwd" :: rest => do
+        let (callee, rest) ← parseTree (rest.length + 1) rest
+        match rest with
+        | npos :: nk :: rest =>
+          let (kws, rest) ← takeNats (← nk.toNat?) rest
+          match rest with
+          | va :: vk :: tg :: rest =>
+            some (.fwd callee (← npos.toNat?) kws (← parseB va) (← parseB vk) (← optNat tg), rest)
+          | _ => none
+        | _ => none
+      | "decoy" :: h :: n :: rest => do some (.decoy (← h.toNat?) (← n.toNat?), rest)
+      | "unrel" :: x :: rest => do some (.unrelated (← x.toNat?), rest)
+      | "block" :: n :: rest => do
+        let (b, rest) ← parseNStmts fuel (← n.toNat?) rest
+        some (.block b, rest)
+      | _ => none
+  def parseNStmts : Nat → Nat → List String → Option (NStmtList × List String)
+    | 0, _, _ => none
+    | _ + 1, 0, toks => some (.nil, toks)
+    | fuel + 1, n + 1, toks => do
+      let (s, rest) ← parseNStmt fuel toks
+      let (ss, rest) ← parseNStmts fuel n rest
+      some (.cons s ss, rest)
+end
+
+mutual
+  def parseStmt : Nat → List String → Option (Stmt × List String)
+    | 0, _ => none
+    | fuel + 1, toks =>
+      match toks with
+      | "fwd" :: rest => do
+        let (callee, rest) ← parseTree (rest.length + 1) rest
+        match rest with
+        | npos :: nk :: rest =>
+          let (kws, rest) ← takeNats (← nk.toNat?) rest
+          match rest with
+          | va :: vk :: tg :: rest =>
+            some (.fwd callee (← npos.toNat?) kws (← parseB va) (← parseB vk) (← optNat tg), rest)
+          | _ => none
+        | _ => none
+      | "rebind" :: s :: rest => do some (.rebind (← parseStar s), rest)
+      | "mutate" :: s :: m :: rest => do some (.mutate (← parseStar s) (← m.toNat?), rest)
+      | "delete" :: s :: rest => do some (.delete (← parseStar s), rest)
+      | "hand" :: s :: h :: rest => do some (.handOver (← parseStar s) (← h.toNat?), rest)
+      | "decoy" :: h :: n :: rest => do some (.decoy (← h.toNat?) (← n.toNat?), rest)
+      | "unrel" :: x :: rest => do some (.unrelated (← x.toNat?), rest)
+      | "nlr" :: s :: rest => do some (.nonlocalRebind (← parseStar s), rest)
+      | "block" :: n :: rest => do
+        let (b, rest) ← parseStmts fuel (← n.toNat?) rest
+        some (.block b, rest)
+      | "nested" :: n :: rest => do
+        let (b, rest) ← parseNStmts (rest.length + 1) (← n.toNat?) rest
+        some (.nested b, rest)
+      | _ => none
+  def parseStmts : Nat → Nat → List String → Option (StmtList × List String)
+    | 0, _, _ => none
+    | _ + 1, 0, toks => some (.nil, toks)
+    | fuel + 1, n + 1, toks => do
+      let (s, rest) ← parseStmt fuel toks
+      let (ss, rest) ← parseStmts fuel n rest
+      some (.cons s ss, rest)
+end
+
+/-- `<nparams> ids… va vk <nstmts> stmt*` -/
+def parseProg (toks : List String) : Option (Prog × List String) :=
+  match toks with
+  | n :: rest => do
+    let (ps, rest) ← takeNats (← n.toNat?) rest
+    match rest with
+    | va :: vk :: ns :: rest =>
+      let (body, rest) ← parseStmts (rest.length + 1) (← ns.toNat?) rest
+      some ({ params := ps, va := ← va.toNat?, vk := ← vk.toNat?, body := body }, rest)
+    | _ => none
+  | [] => none
+
+def showCalls (cs : List CallRec) : String := s!"ok {cs.length} " ++ showList (cs.map showCallRec) ";"
+
+/-- resolution table: `<k> (marker-string SIG)*` -/
+def parseResolve : Nat → List String → Option (List (String × USig) × List String)
+  | 0, toks => some ([], toks)
+  | n + 1, m :: rest => do
+    let (s, rest) ← parseSig rest
+    let (tbl, rest) ← parseResolve n rest
+    some ((m, s) :: tbl, rest)
+  | _ + 1, [] => none
+
+def resolveWith (tbl : List (String × USig)) (partialMarker : String) (r : RM) : RVal :=
+  let k := showRM r
+  if k = partialMarker then .partialCtor else
+  match tbl.find? (fun e => e.1 = k) with
+  | some e => .fn e.2
+  | none => .unresolvable
+
 /-- one request line → one answer line -/
 def handle (line : String) : String :=
   let toks := (line.splitOn " ").filter (· ≠ "")
@@ -385,6 +527,36 @@ def handle (line : String) : String :=
       some (match runVisitor t with
         | .ok cs => s!"ok {cs.length} " ++ showList (cs.map showCallRec) ";"
         | .error e => "err " ++ showErr e)
+    | "render" :: rest => do
+      let (p, rest') ← parseProg rest
+      if rest' ≠ [] then none else some ("ok " ++ " ".intercalate (showTree (render p)))
+    | "progok" :: rest => do
+      let (p, rest') ← parseProg rest
+      if rest' ≠ [] then none else some (toString p.ok)
+    | "ptruth" :: rest => do
+      let (p, rest') ← parseProg rest
+      if rest' ≠ [] then none else some (showCalls ((truth p).map (FwdCall.toRec p)))
+    | "pvisit" :: rest => do
+      let (p, rest') ← parseProg rest
+      if rest' ≠ [] then none else
+      some (match runVisitor (render p) with
+        | .ok cs => showCalls (forwarding cs)
+        | .error e => "err " ++ showErr e)
+    | "pauto" :: pm :: k :: rest => do
+      let (tbl, rest) ← parseResolve (← k.toNat?) rest
+      let (own, rest) ← parseSig rest
+      let (p, rest') ← parseProg rest
+      if rest' ≠ [] then none else
+      some (match runVisitor (render p) with
+        | .ok cs => showRes (discovered own (resolveWith tbl pm) (some cs))
+        | .error e => "err " ++ showErr e)
+    | "pdeclared" :: pm :: k :: rest => do
+      -- the same from the GROUND TRUTH instead of the visitor (C06's expected value)
+      let (tbl, rest) ← parseResolve (← k.toNat?) rest
+      let (own, rest) ← parseSig rest
+      let (p, rest') ← parseProg rest
+      if rest' ≠ [] then none else
+      some (showRes (discovered own (resolveWith tbl pm) (some ((truth p).map (FwdCall.toRec p)))))
     | "makeup" :: ex :: p :: [] => do
       let cs := makeUpCallsigs (← parseParams p) (← parseNats ex ".")
       let strs := cs.map (fun c => s!"{showNatList c.1}|{showNatList ((c.2.toArray.qsort (· < ·)).toList)}")
